@@ -281,6 +281,34 @@ def stress(ctx, conf, tmpdir):
             return
 
 
+def huge_backlog(ctx, tmpdir):
+    """the writer thread is starved while the reader gets more than 10000 blocks ahead of it."""
+    from ..sched import strategies as SS
+
+    rng = ctx.rng("backlog")
+    nblocks = 10400 + rng.randint(0, 300)
+    case = P.small_pipeline_case(rng, 4, [], True)
+    case.update(block=1, w=1 / 8, rate=8, width=1, channels=1, thr=20.0, min_len=1, max_len=2, max_sil=0, partial=0)
+    case["v"] = [1 if (i // 7) % 2 else 0 for i in range(nblocks)]
+    case["saver"] = {"cache_size_sec": rng.choice((0.0001, 10.0, 100000.0))}
+    built = AC.build_audio(case)
+    if built is None:
+        return
+    data, _ = built
+    expected = P.split_reference(data, case)
+    P.clean_dir(tmpdir)
+    # the saver is the victim: it only runs when nobody else can
+    strat = SS.Starve(rng.getrandbits(32), timeout_budget=0, victim=1)
+    case["strategy"] = "starve(saver)"
+    import vf.sched.harness as H_
+
+    res = P.run_pipeline(case, data, tmpdir, strategy=strat)
+    ctx.count("huge_backlog_runs")
+    ctx.maxi("queue_depth", res.sched.max_queue_depth)
+    ctx.case(stable_hash(["backlog", nblocks, case["saver"], res.sched.steps]), True)
+    check_run(ctx, case, data, res, expected, tmpdir)
+
+
 def run_shard(ctx):
     conf = TIERS[ctx.tier]
     tmpdir = tempfile.mkdtemp(prefix="vf-c13-")
@@ -291,6 +319,8 @@ def run_shard(ctx):
             one(ctx, case, tmpdir)
             if ctx.out_of_time():
                 break
+        if ctx.shard == 1 or (ctx.tier == "thorough" and ctx.shard < 6):
+            huge_backlog(ctx, tmpdir)
         systematic(ctx, conf, tmpdir)
         stress(ctx, conf, tmpdir)
         rng = ctx.rng("lines")
@@ -315,10 +345,10 @@ def inconclusive(merged, tier):
     c = merged["counters"]
     need = ["scheduled_runs", "saver_runs", "blocks_checked", "joiner_files_checked", "joiner_files_with_zero_events",
             "region_dirs_checked", "region_files_checked", "runs_on_empty_stream", "runs_on_event_free_stream", "runs_with_a_stop", "runs_with_short_reads",
-            "line_mode_runs", "timeouts_fired", "systematic_schedules", "systematic_pipelines_fully_enumerated", "stress_runs", "stress_files_checked"]
+            "line_mode_runs", "timeouts_fired", "systematic_schedules", "systematic_pipelines_fully_enumerated", "stress_runs", "stress_files_checked", "huge_backlog_runs"]
     out = [f"monitor never observed {k}" for k in need if c.get(k, 0) == 0]
-    if c.get("max:queue_depth", 0) < 3:
-        out.append("the writer never lagged (max queue depth < 3)")
+    if c.get("max:queue_depth", 0) < 10000:
+        out.append("the writer never lagged by more than 10000 blocks")
     if c.get("inconclusive_runs", 0) > max(3, c.get("scheduled_runs", 0) // 50):
         out.append(f"{c['inconclusive_runs']} runs hit a step/wall cap")
     return out
